@@ -306,4 +306,25 @@ theorem pcmCtor_table {g : Globals} (h : TableOk g) : (pcmCtor g).volTable = con
 theorem pcmCtor_ok {g : Globals} (h : TableOk g) : TableOk (pcmCtor g) :=
   Or.inr ⟨(pcmCtor_table h).2, (pcmCtor_table h).1⟩
 
+/-- the driver as a function producing exporter operations -/
+abbrev XDriver (α : Type) := List (List Int) → α → List XOp
+
+def XDriver.fn {α} (drv : XDriver α) : DriverFn α := fun t i => (drv t i).map XOp.toOp
+
+theorem reachable_tableOk {α} {drv : DriverFn α} {g : Globals} (h : Reachable drv g) : TableOk g := by
+  induction h with
+  | init => exact tableOk_initial
+  | vgm fill clk inp tags _ ih => exact pcmCtor_ok ih
+  | mds song d vol _ ih => exact ih
+  | tool name _ ih =>
+    unfold getExtension
+    split
+    · exact ih
+    · exact ih
+
+/-- the export writes a header of `vgm_export_header_size` bytes that holds the pokes -/
+theorem mdPokes_inside : ∀ p ∈ (Tables.md_vgm_pokes.map fun (w, off, v) =>
+    (off, if w = 4 then le32 v else if w = 2 then le16 v else [byteOf v])), p.1 + p.2.length ≤ Tables.vgm_export_header_size := by
+  decide
+
 end Ctrmml.Globals
